@@ -37,7 +37,11 @@ func normBody(c *ctx, body []ast.Stmt) string {
 
 var (
 	reConv      = regexp.MustCompile(`^v = (int32|int64|float32|float64)\(tv\)$`)
-	reConvCheck = regexp.MustCompile(`^v = (int32)\(tv\) ; if float64\(int32\(tv\)\) != tv \{ err = newCoerceErr\(v, "\w+"\) \}$`)
+	// checked narrowing: the value is converted and an error raised when it did not fit.  Signed and float arms
+	// compare the round trip in the arm's own type; unsigned arms must compare with the bound (a round trip
+	// through int32 is the identity on the bits of an unsigned value), so the form is tied to the arm's kind.
+	reConvCheck  = regexp.MustCompile(`^v = (int32)\(tv\) ; if (float64|int64|int)\(int32\(tv\)\) != tv \{ err = newCoerceErr\((?:v|tv), "\w+"\) \}$`)
+	reConvCheckU = regexp.MustCompile(`^v = (int32)\(tv\) ; if math\.MaxInt32 < tv \{ err = newCoerceErr\((?:v|tv), "\w+"\) \}$`)
 	reFailA     = regexp.MustCompile(`^err = newCoerceErr\((v|tv), ("\w+"|t\.N|t\.Name\(\))\) ; v = nil$`)
 	reFailB     = regexp.MustCompile(`^v = nil ; err = newCoerceErr\((v|tv), ("\w+"|t\.N|t\.Name\(\))\)$`)
 	reItoa      = regexp.MustCompile(`^v = strconv\.Itoa\((tv|int\(tv\))\)$`)
@@ -57,12 +61,29 @@ var (
 	reTimeAs    = regexp.MustCompile(`^tt = tv$`)
 )
 
-func actionOf(body string, pos string) string {
+func actionOf(body string, pos string, kinds []string) string {
+	all := func(ok func(string) bool) bool {
+		for _, k := range kinds {
+			if !ok(k) {
+				return false
+			}
+		}
+		return len(kinds) > 0
+	}
 	switch {
 	case body == "":
 		return ".asIs"
 	case reConvCheck.MatchString(body):
-		return ".convCheckedKeep ." + convTargets[reConvCheck.FindStringSubmatch(body)[1]]
+		m := reConvCheck.FindStringSubmatch(body)
+		if !all(func(k string) bool { return k == m[2] }) { // the round trip must be taken in the arm's own type
+			return unknown("coerce_arm_roundtrip_type", pos)
+		}
+		return ".convCheckedKeep ." + convTargets[m[1]]
+	case reConvCheckU.MatchString(body):
+		if !all(func(k string) bool { return k == "uint" || k == "uint32" || k == "uint64" }) {
+			return unknown("coerce_arm_bound_check_kind", pos)
+		}
+		return ".convCheckedKeep ." + convTargets[reConvCheckU.FindStringSubmatch(body)[1]]
 	case reConv.MatchString(body):
 		return ".conv ." + convTargets[reConv.FindStringSubmatch(body)[1]]
 	case reFailA.MatchString(body), reFailB.MatchString(body):
@@ -119,7 +140,11 @@ func tableOfSwitch(c *ctx, fd *ast.FuncDecl) (arms []string, dflt string, ok boo
 	dflt = unknown("coerce_no_default", c.pos(fd))
 	for _, cl := range ts.Body.List {
 		cc := cl.(*ast.CaseClause)
-		act := actionOf(normBody(c, cc.Body), c.pos(cc))
+		var kinds []string
+		for _, e := range cc.List {
+			kinds = append(kinds, c.src(e))
+		}
+		act := actionOf(normBody(c, cc.Body), c.pos(cc), kinds)
 		if cc.List == nil {
 			dflt = act
 			continue
